@@ -1,9 +1,11 @@
 // factx: regenerates /verif/lean/Psa/Generated/*.lean from /repo's working tree.
-//   F1 registration metadata (reflection on policy.DefaultChecks / ExperimentalChecks)
-//   F2 allow-lists (run-time values through the verif hook; predicate functions and the volume switch through go/ast)
-//   F4 per-revision field read-sets, F5 stores through the pod parameters (go/ssa)
-//   F6 stores to AdmissionResponse fields with the origin of the pointer, F8 stores to package-level variables (go/ssa)
-//   F7 constants and small tables (go/types)
+//
+//	F1 registration metadata (reflection on policy.DefaultChecks / ExperimentalChecks)
+//	F2 allow-lists (run-time values through the verif hook; predicate functions and the volume switch through go/ast)
+//	F4 per-revision field read-sets, F5 stores through the pod parameters (go/ssa)
+//	F6 stores to AdmissionResponse fields with the origin of the pointer, F8 stores to package-level variables (go/ssa)
+//	F7 constants and small tables (go/types)
+//
 // An unrecognised construct is a hard failure (exit 1): a fact is never silently skipped.
 package main
 
@@ -43,6 +45,13 @@ type Dump struct {
 	Tables          map[string][]string `json:"tables"`
 	Consts          map[string]string   `json:"consts"`
 	VolumeJSONNames map[string]string   `json:"volumeJSONNames"`
+	VolumeProbe     struct {
+		Error    string      `json:"error"`
+		Allowed  []string    `json:"allowed"`
+		Bad      [][2]string `json:"bad"`
+		Default  string      `json:"default"`
+		Problems []string    `json:"problems"`
+	} `json:"volumeProbe"`
 }
 
 var dump Dump
@@ -92,11 +101,11 @@ func writeIfChanged(path, content string) {
 // ---------------------------------------------------------------- F1
 
 type revMeta struct {
-	id    string
-	level string
+	id           string
+	level        string
 	major, minor int
-	overrides []string
-	fn    string // Go function name of CheckPod
+	overrides    []string
+	fn           string // Go function name of CheckPod
 }
 
 func metaOf(checks []DumpCheck) (string, []revMeta) {
@@ -154,92 +163,260 @@ func (a *astCtx) constString(e ast.Expr) (string, bool) {
 	return constant.StringVal(tv.Value), true
 }
 
-// predicate: `return a || b || ...` with disjuncts  x == C | C == x | len(x) == 0 | strings.HasPrefix(x, C);
-// or a single `switch x { case C...: return true; default: return false }`.
-func (a *astCtx) predicate(name string) (exact []string, prefixes []string) {
-	fd := a.funcDecl(name)
-	if fd == nil || fd.Body == nil || len(fd.Body.List) != 1 {
-		fail("F2: function %s not found or not a single statement", name)
-		return
+// predicate: the set of strings a small string predicate of package policy accepts, for ALL strings, whatever shape the
+// function is written in. The body is evaluated symbolically: statements `return e`, `if c {..} else {..}`, `switch x {case C..}`,
+// `switch {case c..}`; expressions || && ! ( ) == != against constants, len(x) ==/!=/> 0, strings.HasPrefix(x, C), true/false,
+// and calls of other package-local predicates on the same argument. Every atom is "x equals a constant", "x is empty" or
+// "x has a constant prefix", so the function's value on a string is determined by which constants it equals and which of
+// the mentioned prefixes it has; the witnesses {each constant, each prefix + a byte no constant continues with, "", a fresh
+// string} realise every such combination, and evaluating the function on them yields the accepted exact values and prefixes.
+// Anything else in the body (assignments, loops, other calls) is a hard failure.
+type symPred struct {
+	a      *astCtx
+	name   string
+	consts map[string]bool
+	pfx    map[string]bool
+	ok     bool
+}
+
+func (sp *symPred) bad(format string, args ...any) func(string) bool {
+	if sp.ok {
+		fail("F2: %s: "+format, append([]any{sp.name}, args...)...)
 	}
-	var disj func(e ast.Expr)
-	disj = func(e ast.Expr) {
-		switch x := e.(type) {
-		case *ast.ParenExpr:
-			disj(x.X)
-		case *ast.BinaryExpr:
-			switch x.Op {
-			case token.LOR:
-				disj(x.X)
-				disj(x.Y)
-			case token.EQL:
-				if s, ok := a.constString(x.Y); ok {
-					exact = append(exact, s)
-				} else if s, ok := a.constString(x.X); ok {
-					exact = append(exact, s)
-				} else if call, ok := x.X.(*ast.CallExpr); ok && isIdent(call.Fun, "len") {
-					if tv := a.pkg.TypesInfo.Types[x.Y]; tv.Value != nil && tv.Value.String() == "0" {
-						exact = append(exact, "")
-					} else {
-						fail("F2: %s: unrecognised len comparison", name)
+	sp.ok = false
+	return func(string) bool { return false }
+}
+
+func (sp *symPred) expr(e ast.Expr, param string, depth int) func(string) bool {
+	a := sp.a
+	switch x := e.(type) {
+	case *ast.ParenExpr:
+		return sp.expr(x.X, param, depth)
+	case *ast.Ident:
+		if x.Name == "true" {
+			return func(string) bool { return true }
+		}
+		if x.Name == "false" {
+			return func(string) bool { return false }
+		}
+		return sp.bad("unrecognised identifier %s in a condition", x.Name)
+	case *ast.UnaryExpr:
+		if x.Op == token.NOT {
+			f := sp.expr(x.X, param, depth)
+			return func(s string) bool { return !f(s) }
+		}
+	case *ast.BinaryExpr:
+		switch x.Op {
+		case token.LOR:
+			f, g := sp.expr(x.X, param, depth), sp.expr(x.Y, param, depth)
+			return func(s string) bool { return f(s) || g(s) }
+		case token.LAND:
+			f, g := sp.expr(x.X, param, depth), sp.expr(x.Y, param, depth)
+			return func(s string) bool { return f(s) && g(s) }
+		case token.EQL, token.NEQ, token.GTR:
+			neg := x.Op == token.NEQ
+			isParam := func(e ast.Expr) bool {
+				if call, ok := e.(*ast.CallExpr); ok && len(call.Args) == 1 { // string(x) conversions
+					if tv, ok := a.pkg.TypesInfo.Types[call.Fun]; ok && tv.IsType() {
+						return isIdent(call.Args[0], param)
 					}
-				} else {
-					fail("F2: %s: unrecognised equality", name)
 				}
-			default:
-				fail("F2: %s: unrecognised operator %s", name, x.Op)
+				return isIdent(e, param)
 			}
-		case *ast.CallExpr:
-			if sel, ok := x.Fun.(*ast.SelectorExpr); ok && sel.Sel.Name == "HasPrefix" && isIdent(sel.X, "strings") && len(x.Args) == 2 {
-				if s, ok := a.constString(x.Args[1]); ok {
-					prefixes = append(prefixes, s)
-					return
+			lenOfParam := func(e ast.Expr) bool {
+				call, ok := e.(*ast.CallExpr)
+				return ok && isIdent(call.Fun, "len") && len(call.Args) == 1 && isParam(call.Args[0])
+			}
+			zero := func(e ast.Expr) bool {
+				tv := a.pkg.TypesInfo.Types[e]
+				return tv.Value != nil && tv.Value.String() == "0"
+			}
+			if lenOfParam(x.X) && zero(x.Y) {
+				sp.consts[""] = true
+				if x.Op == token.EQL {
+					return func(s string) bool { return s == "" }
 				}
+				return func(s string) bool { return s != "" } // != 0 and > 0
 			}
-			fail("F2: %s: unrecognised call", name)
-		default:
-			fail("F2: %s: unrecognised expression %T", name, e)
+			if x.Op == token.GTR {
+				break
+			}
+			var c string
+			var ok bool
+			if isParam(x.X) {
+				c, ok = a.constString(x.Y)
+			} else if isParam(x.Y) {
+				c, ok = a.constString(x.X)
+			}
+			if ok {
+				sp.consts[c] = true
+				return func(s string) bool { return (s == c) != neg }
+			}
+		}
+	case *ast.CallExpr:
+		if sel, ok := x.Fun.(*ast.SelectorExpr); ok && isIdent(sel.X, "strings") && len(x.Args) == 2 && isIdent(x.Args[0], param) {
+			if c, ok := a.constString(x.Args[1]); ok && sel.Sel.Name == "HasPrefix" {
+				sp.pfx[c] = true
+				return func(s string) bool { return strings.HasPrefix(s, c) }
+			}
+		}
+		if id, ok := x.Fun.(*ast.Ident); ok && len(x.Args) == 1 && isIdent(x.Args[0], param) && depth < 4 {
+			if fd := a.funcDecl(id.Name); fd != nil && fd.Body != nil && fd.Type.Params != nil && len(fd.Type.Params.List) == 1 && len(fd.Type.Params.List[0].Names) == 1 {
+				return sp.stmts(fd.Body.List, fd.Type.Params.List[0].Names[0].Name, depth+1)
+			}
 		}
 	}
-	switch st := fd.Body.List[0].(type) {
+	return sp.bad("unrecognised condition %T", e)
+}
+
+// stmts: the value the function returns when control enters this statement list (falling off the end is not allowed)
+func (sp *symPred) stmts(list []ast.Stmt, param string, depth int) func(string) bool {
+	if len(list) == 0 {
+		return sp.bad("control can fall off the end")
+	}
+	rest := list[1:]
+	switch st := list[0].(type) {
 	case *ast.ReturnStmt:
 		if len(st.Results) != 1 {
-			fail("F2: %s: unexpected return", name)
-			return
+			return sp.bad("unexpected return")
 		}
-		disj(st.Results[0])
+		return sp.expr(st.Results[0], param, depth)
+	case *ast.BlockStmt:
+		return sp.stmts(append(append([]ast.Stmt{}, st.List...), rest...), param, depth)
+	case *ast.IfStmt:
+		if st.Init != nil {
+			return sp.bad("if with an init statement")
+		}
+		c := sp.expr(st.Cond, param, depth)
+		th := sp.stmts(append(append([]ast.Stmt{}, st.Body.List...), rest...), param, depth)
+		var el func(string) bool
+		switch e := st.Else.(type) {
+		case nil:
+			el = sp.stmts(rest, param, depth)
+		case *ast.BlockStmt:
+			el = sp.stmts(append(append([]ast.Stmt{}, e.List...), rest...), param, depth)
+		case *ast.IfStmt:
+			el = sp.stmts(append([]ast.Stmt{e}, rest...), param, depth)
+		default:
+			return sp.bad("unrecognised else")
+		}
+		return func(s string) bool {
+			if c(s) {
+				return th(s)
+			}
+			return el(s)
+		}
 	case *ast.SwitchStmt:
-		sawDefault := false
+		if st.Init != nil {
+			return sp.bad("switch with an init statement")
+		}
+		type clause struct {
+			cond func(string) bool
+			body func(string) bool
+		}
+		var clauses []clause
+		var def func(string) bool
 		for _, cl := range st.Body.List {
 			cc := cl.(*ast.CaseClause)
-			ret, ok := singleReturnBool(cc.Body)
-			if !ok {
-				fail("F2: %s: case body is not `return true/false`", name)
-				continue
+			for _, b := range cc.Body {
+				if br, ok := b.(*ast.BranchStmt); ok && br.Tok == token.FALLTHROUGH {
+					return sp.bad("fallthrough")
+				}
 			}
+			body := sp.stmts(append(append([]ast.Stmt{}, cc.Body...), rest...), param, depth)
 			if cc.List == nil {
-				sawDefault = true
-				if ret {
-					fail("F2: %s: default returns true", name)
-				}
+				def = body
 				continue
 			}
-			if !ret {
-				continue
-			}
+			var conds []func(string) bool
 			for _, e := range cc.List {
-				if s, ok := a.constString(e); ok {
-					exact = append(exact, s)
+				if st.Tag == nil {
+					conds = append(conds, sp.expr(e, param, depth))
 				} else {
-					fail("F2: %s: non-constant case", name)
+					conds = append(conds, sp.expr(&ast.BinaryExpr{X: st.Tag, Op: token.EQL, Y: e}, param, depth))
 				}
 			}
+			clauses = append(clauses, clause{func(s string) bool {
+				for _, c := range conds {
+					if c(s) {
+						return true
+					}
+				}
+				return false
+			}, body})
 		}
-		if !sawDefault {
-			fail("F2: %s: switch without default", name)
+		if def == nil {
+			def = sp.stmts(rest, param, depth)
 		}
-	default:
-		fail("F2: %s: unrecognised body %T", name, st)
+		return func(s string) bool {
+			for _, cl := range clauses {
+				if cl.cond(s) {
+					return cl.body(s)
+				}
+			}
+			return def(s)
+		}
+	}
+	return sp.bad("unrecognised statement %T", list[0])
+}
+
+func (a *astCtx) predicate(name string) (exact []string, prefixes []string) {
+	fd := a.funcDecl(name)
+	if fd == nil || fd.Body == nil || fd.Type.Params == nil || len(fd.Type.Params.List) != 1 || len(fd.Type.Params.List[0].Names) != 1 {
+		fail("F2: predicate %s not found (or not a function of one parameter)", name)
+		return
+	}
+	sp := &symPred{a: a, name: name, consts: map[string]bool{}, pfx: map[string]bool{}, ok: true}
+	f := sp.stmts(fd.Body.List, fd.Type.Params.List[0].Names[0].Name, 0)
+	if !sp.ok {
+		return
+	}
+	// a byte that continues no mentioned constant or prefix
+	sep := "\x01"
+	for p := range sp.pfx {
+		if f(p + sep) {
+			prefixes = append(prefixes, p)
+		}
+	}
+	sort.Strings(prefixes)
+	covered := func(c string) bool {
+		for _, p := range prefixes {
+			if strings.HasPrefix(c, p) {
+				return true
+			}
+		}
+		return false
+	}
+	sp.consts[""] = true
+	for c := range sp.consts {
+		if f(c) && !covered(c) {
+			exact = append(exact, c)
+		}
+	}
+	sort.Strings(exact)
+	if f(sep + "fresh") {
+		fail("F2: %s accepts a string it does not mention", name)
+	}
+	// the table (exact values + prefixes) must reproduce the function on every witness
+	table := func(s string) bool {
+		for _, c := range exact {
+			if s == c {
+				return true
+			}
+		}
+		return covered(s)
+	}
+	witnesses := []string{"", sep + "fresh"}
+	for c := range sp.consts {
+		witnesses = append(witnesses, c)
+	}
+	for p := range sp.pfx {
+		witnesses = append(witnesses, p, p+sep)
+	}
+	for _, w := range witnesses {
+		if f(w) != table(w) {
+			fail("F2: %s is not of the form (exact values or one of the prefixes): differs on %q", name, w)
+		}
 	}
 	return
 }
@@ -264,94 +441,21 @@ func singleReturnBool(body []ast.Stmt) (bool, bool) {
 	return id.Name == "true", true
 }
 
-// volume switches of restrictedVolumes_1_0: the allowed source fields of the first `switch {case volume.X != nil, ...: continue`
-// and the ordered (field, name) pairs of the nested switch.
+// the volume-source table of the restricted volume-types control, as probed by the harness through the registered check
+// (every single source kind, every pair): the allowed kinds, the (kind, reported name) pairs in order of precedence, the
+// name reported for anything else
 func (a *astCtx) volumeSwitches() (allowed []string, bad [][2]string) {
-	fd := a.funcDecl("restrictedVolumes_1_0")
-	if fd == nil {
-		fail("F2: restrictedVolumes_1_0 not found")
+	vp := dump.VolumeProbe
+	if vp.Error != "" {
+		fail("F2: volume probe: %s", vp.Error)
 		return
 	}
-	jsonName := dump.VolumeJSONNames
-	fieldOf := func(e ast.Expr) (string, bool) {
-		be, ok := e.(*ast.BinaryExpr)
-		if !ok || be.Op != token.NEQ || !isIdent(be.Y, "nil") {
-			return "", false
-		}
-		sel, ok := be.X.(*ast.SelectorExpr)
-		if !ok {
-			return "", false
-		}
-		j, ok := jsonName[sel.Sel.Name]
-		return j, ok
+	for _, p := range vp.Problems {
+		fail("F2: volume probe: %s", p)
 	}
-	var outer *ast.SwitchStmt
-	ast.Inspect(fd.Body, func(n ast.Node) bool {
-		if s, ok := n.(*ast.SwitchStmt); ok && outer == nil && s.Tag == nil {
-			outer = s
-			return false
-		}
-		return true
-	})
-	if outer == nil {
-		fail("F2: restrictedVolumes_1_0: no switch")
-		return
-	}
-	for _, cl := range outer.Body.List {
-		cc := cl.(*ast.CaseClause)
-		if cc.List != nil {
-			if len(cc.Body) != 1 {
-				fail("F2: restrictedVolumes_1_0: allowed case does not just continue")
-			} else if br, ok := cc.Body[0].(*ast.BranchStmt); !ok || br.Tok != token.CONTINUE {
-				fail("F2: restrictedVolumes_1_0: allowed case does not just continue")
-			}
-			for _, e := range cc.List {
-				if f, ok := fieldOf(e); ok {
-					allowed = append(allowed, f)
-				} else {
-					fail("F2: restrictedVolumes_1_0: unrecognised allowed case")
-				}
-			}
-			continue
-		}
-		// default: find the nested switch
-		var inner *ast.SwitchStmt
-		for _, st := range cc.Body {
-			if s, ok := st.(*ast.SwitchStmt); ok {
-				inner = s
-			}
-		}
-		if inner == nil {
-			fail("F2: restrictedVolumes_1_0: no nested switch")
-			return
-		}
-		for _, icl := range inner.Body.List {
-			icc := icl.(*ast.CaseClause)
-			lit := ""
-			if len(icc.Body) == 1 {
-				if es, ok := icc.Body[0].(*ast.ExprStmt); ok {
-					if call, ok := es.X.(*ast.CallExpr); ok && len(call.Args) == 1 {
-						lit, _ = a.constString(call.Args[0])
-					}
-				}
-			}
-			if lit == "" {
-				fail("F2: restrictedVolumes_1_0: nested case does not insert a literal")
-				continue
-			}
-			if icc.List == nil {
-				bad = append(bad, [2]string{"", lit})
-				continue
-			}
-			for _, e := range icc.List {
-				if f, ok := fieldOf(e); ok {
-					bad = append(bad, [2]string{f, lit})
-				} else {
-					fail("F2: restrictedVolumes_1_0: unrecognised nested case")
-				}
-			}
-		}
-	}
+	allowed = vp.Allowed
+	bad = append(bad, vp.Bad...)
+	bad = append(bad, [2]string{"", vp.Default})
 	return
 }
 
